@@ -37,7 +37,7 @@ REQUIRED_LABELS = {"kind:relabel": 0.4, "kind:reject": 0.08, "basis:odd-spelling
 
 
 def budget(tier):
-    n = int(os.environ.get("KV_EXAMPLES", 0)) or (9600 if tier == "quick" else 60000)
+    n = int(os.environ.get("KV_EXAMPLES", 0)) or (16000 if tier == "quick" else 60000)
     return {"examples": n, "shards": 16, "wall": 100 if tier == "quick" else 1200}
 
 
